@@ -1,0 +1,87 @@
+//go:build verif
+
+package bytecode
+
+// This file is only built with the "verif" tag. It exposes read-only views of
+// the compiler's symbol table and the VM's state for external verification
+// harnesses. It adds no behaviour.
+
+// VerifOrderedMap is the structural form of an evy map value.
+type VerifOrderedMap struct {
+	Keys []string
+	Vals map[string]any
+}
+
+func verifStructural(v value) any {
+	switch v := v.(type) {
+	case nil:
+		return nil
+	case numVal:
+		return float64(v)
+	case stringVal:
+		return string(v)
+	case boolVal:
+		return bool(v)
+	case arrayVal:
+		out := make([]any, len(v.Elements))
+		for i, e := range v.Elements {
+			out[i] = verifStructural(e)
+		}
+		return out
+	case mapVal:
+		m := VerifOrderedMap{Vals: map[string]any{}}
+		for _, k := range v.order {
+			m.Keys = append(m.Keys, string(k))
+		}
+		for k, e := range v.m {
+			m.Vals[string(k)] = verifStructural(e)
+		}
+		return m
+	case noneVal:
+		return "<none>"
+	}
+	return "<unknown " + v.String() + ">"
+}
+
+// VerifGlobals returns the VM's global variables by the compiler's symbol
+// names in structural form (float64, string, bool, []any, VerifOrderedMap).
+func (vm *VM) VerifGlobals(c *Compiler) map[string]any {
+	root := c.symbolTable
+	for root.outer != nil {
+		root = root.outer
+	}
+	out := map[string]any{}
+	for name, sym := range root.store {
+		if sym.Scope == GlobalScope && sym.Index < len(vm.globals) {
+			out[name] = verifStructural(vm.globals[sym.Index])
+		}
+	}
+	return out
+}
+
+// VerifSP returns the VM's stack pointer.
+func (vm *VM) VerifSP() int { return vm.sp }
+
+// VerifGlobalNames returns the names of the global symbols.
+func (c *Compiler) VerifGlobalNames() []string {
+	root := c.symbolTable
+	for root.outer != nil {
+		root = root.outer
+	}
+	var names []string
+	for name := range root.store {
+		names = append(names, name)
+	}
+	return names
+}
+
+// VerifTableState describes a symbol table for model-based tests.
+type VerifTableState struct {
+	Index, NestedMaxIndex int
+	IsGlobal              bool
+}
+
+// VerifState returns the counters of the symbol table.
+func (s *SymbolTable) VerifState() VerifTableState {
+	return VerifTableState{Index: s.index, NestedMaxIndex: s.nestedMaxIndex, IsGlobal: s.outer == nil}
+}
